@@ -161,15 +161,21 @@ value = _NS["_xv_value"]
 
 
 def make_fn(args, kind="num", name="xvfn", version=0, defaults=None,
-            delay=None, varkw=()):
+            delay=None, varkw=(), kwonly=()):
     """Build ``def name(a, b, k=<default>)`` returning the encoding of its
     keyword arguments as result ``kind``.  Arguments named in ``varkw`` are
     not in the signature: they arrive through ``**kw``."""
     defaults = defaults or {}
     parts = []
+    star = False
     for a in args:
         if a in varkw:
             continue
+        if a in kwonly and not star:
+            # (the arguments named in ``kwonly`` - they must come last - are
+            # keyword-only parameters)
+            parts.append("*")
+            star = True
         if a in defaults:
             parts.append("%s=%r" % (a, defaults[a]))
         else:
